@@ -292,3 +292,15 @@ Proof.
     apply Permutation_sym. apply (Permutation_cons_app [ov1; ov2] [] ov3). apply Permutation_refl.
   - vm_compute. discriminate.
 Qed.
+
+(* why the proviso speaks of PEPs: with a match-between-runs row (no PEP) among rows that tie on the rest of the key, the comparison is
+   not transitive - a NaN compares "not less" both ways, exactly as Python's tuple comparison does *)
+Definition nt_a : lprec := {| l_peptide := s2l "PEPA"; l_charge := 2; l_exp := 0; l_expname := s2l "E1"; l_fraction := s2l "1";
+                              l_intensity := Some (3#1); l_pep := Some (1#50); l_silac := [] |}.
+Definition nt_b : lprec := {| l_peptide := s2l "PEPA"; l_charge := 2; l_exp := 0; l_expname := s2l "E1"; l_fraction := s2l "1";
+                              l_intensity := Some (3#1); l_pep := None; l_silac := [] |}.
+Definition nt_c : lprec := {| l_peptide := s2l "PEPA"; l_charge := 2; l_exp := 0; l_expname := s2l "E1"; l_fraction := s2l "1";
+                              l_intensity := Some (3#1); l_pep := Some (1#100); l_silac := [] |}.
+Lemma key_not_transitive_with_mbr : key_leb nt_a nt_b = true /\ key_leb nt_b nt_c = true /\ key_leb nt_a nt_c = false.
+Proof. vm_compute. repeat split; reflexivity. Qed.
+
